@@ -123,7 +123,36 @@ PANIC_SITES = [
     ("F38", r"value reg\(\d+\) not found|value extfun \w+ \w+ not found"),
     ("F34", r"called `Result::unwrap\(\)` on an `Err` value: \[TypeMismatch"),
     ("F39", r"Instruction not implemented: Error"),
+    ("F61", r"index out of bounds: the len is \d+ but the index is \d{15,}"),
 ]
+
+LIT = r"(?<![\w.])\d+\.0\b"
+
+
+def witness_requests():
+    """corpus/C03/witnesses.json: one or more concrete inputs per listed finding (and per repaired defect, which must stay repaired).
+    They run first, so every listed finding is reported on every run and a finding that no longer reproduces is noticed."""
+    out = []
+    for w in json.load(open(os.path.join(VERIF, "corpus", "C03", "witnesses.json"))):
+        rq = {"n": 8, "state": False, "sched": True, "isolate": True}
+        if "file" in w:
+            path = os.path.join(REPO, w["file"])
+            if not os.path.exists(path):
+                out.append((w, None)); continue
+            src = open(path).read()
+            if "literal" in w:
+                ms = list(re.finditer(LIT, src))
+                if w["literal"] >= len(ms):
+                    out.append((w, None)); continue
+                m = ms[w["literal"]]
+                src = src[:m.start()] + {"str": '"s"', "tuple": "(1.0, 2.0)", "unit": "()"}[w["kind"]] + src[m.end():]
+            rq["path"] = path
+        else:
+            src = w["src"]
+        rq["src"] = src
+        out.append((w, rq))
+    return out
+
 
 
 def site_class(msg):
@@ -148,6 +177,10 @@ def run(ck):
     n_cases, n_samples = (500, 24) if quick else (5000, 96)
     cases = load_corpus("lmmm") + gen_cases(ck, n_cases, n_samples, tag="C03")
     reqs, meta = [], []
+    wits = witness_requests()
+    for w, rq in wits:
+        if rq is not None:
+            reqs.append(rq); meta.append(("witness:" + w["id"] + (":repaired" if "repaired" in w else ""), text_classes(rq["src"]) | {w["id"]}, None))
     rng = ck.rng.fork("nearmiss")
     for (p, rows), rq in zip(cases, impl_requests(cases)):
         reqs.append(rq); meta.append(("gen", classes_of(p), len(p['outs'])))
@@ -178,7 +211,7 @@ def run(ck):
         rq["typecheck"] = True
     res = run_impl(iexe, reqs, timeout_per_batch=400)
     # a crashed process reported no type-check verdict: ask for it alone (no backend is run)
-    crashed = [i for i, r in enumerate(res) if 'crash' in r and meta[i][0] != "gen"]
+    crashed = [i for i, r in enumerate(res) if 'crash' in r and meta[i][0] != "gen" and "typecheck" not in r]
     if crashed:
         tq = [{**{k: v for k, v in reqs[i].items() if k not in ("id", "isolate")}, "backends": [], "typecheck": True, "isolate": True} for i in crashed]
         tr = run_impl(iexe, tq, timeout_per_batch=120)
@@ -187,6 +220,11 @@ def run(ck):
         for i, rq in enumerate(reqs):
             rq['id'] = i
     distinct = set()
+    reproduced = set()
+    _known = ck.known
+    def known_and_note(f, detail):
+        reproduced.add(f["id"]); _known(f, detail)
+    ck.known = known_and_note
     for (kind, cls, nouts), rq, r in zip(meta, reqs, res):
         src = rq["src"]
         tcv = r.get("typecheck", "ok" if kind == "gen" else None)
@@ -241,6 +279,13 @@ def run(ck):
                                 else:
                                     viol.append(("VM state access [%d,%d) outside the storage of %d words" % (ev[1], ev[1] + ev[2], ev[3]), src, rq))
                                 break
+    stale = sorted(w["id"] for w, rq in wits if "repaired" not in w and w["id"] in findings and w["id"] not in reproduced)
+    listed_without_witness = sorted(set(findings) - {w["id"] for w, _ in wits})
+    for fid in stale:
+        print(f"NOTE: property=C03 the witness of listed finding {fid} no longer shows the defect (repaired? then turn the line into `fixed:`)", flush=True)
+    ck.coverage["findings_reproduced"] = sorted(reproduced)
+    ck.coverage["findings_whose_witness_no_longer_fails"] = stale
+    ck.coverage["findings_without_witness"] = listed_without_witness
     ck.coverage["evaluations"] = len(reqs)
     ck.coverage["distinct_nontrivial"] = len(distinct)
     ck.coverage["stats"] = stats
